@@ -129,12 +129,31 @@ Proof. reflexivity. Qed.
 Lemma mlk_add : forall j k m, mlk (j + k) m = mlk k (mlk j m).
 Proof. intros. unfold mlk. apply mrun_repeat_add. Qed.
 
-Lemma Reach_step_l : forall m, Reach ds ls m -> Reach ds ls (mstep_l ls m).
-Proof. intros m H. exact (Reach_run ds ls m [false] H). Qed.
+(* The listener's environment is abstract: `R` is any invariant of the message-level state that
+   the listener's own micro-steps preserve, under which the messages still to be read are
+   well-formed header / proposal messages, the message being sent is a legal answer, and a peer
+   that has gone over to its payload is not read any further. Instantiated with `Reach ds ls`
+   (the peer is the model's own dialer) at the end of the file, and with the invariant of an
+   arbitrary legal peer in Peer.v. *)
+Variable R : msys -> Prop.
+Hypothesis R_step_l : forall m, R m -> R (mstep_l ls m).
+Hypothesis R_ok_dl : forall m, R m -> Forall okmsg (c_dl m ++ md_wbuf (sd m)).
+Hypothesis R_head_dl : forall m, R m -> Forall (dmsg ds) (c_dl m).
+Hypothesis R_send_l : forall m, R m -> lph_ok ds (ml_ph (sl m)).
+Hypothesis R_guard_l : forall m q, R m -> md_ph (sd m) = MDDone (Some q) ->
+  (ml_ph (sl m) = MLRecvHeader \/ ml_ph (sl m) = MLRecvMsg) -> c_dl m <> [].
+
+Lemma R_mlk : forall k m, R m -> R (mlk k m).
+Proof.
+  induction k as [|k IH]; intros m H; [exact H|]. rewrite mlk_S. apply IH. apply R_step_l. exact H.
+Qed.
+
+Lemma Reach_step_l : forall m, R m -> R (mstep_l ls m).
+Proof. exact R_step_l. Qed.
 
 Definition LPost (rvD : rview) (svD : sview) (m' : msys) (l' : listener) (pin' pout' : pipe) (r : nout)
   : Prop :=
-  Reach ds ls m' /\ SLinkD svD m' /\
+  R m' /\ SLinkD svD m' /\
   match r with
   | NPending =>
       LLoc l' (sl m') /\ ld_closed m' = false /\
@@ -159,14 +178,14 @@ Proof. intros. exists (S k). rewrite mlk_S. assumption. Qed.
 
 Definition SimStmtL (fuel : nat) : Prop :=
   forall l pin pout m rvD svD l' pin' pout' r,
-  Reach ds ls m -> SLinkD svD m -> LLoc l (sl m) -> ld_closed m = false ->
+  R m -> SLinkD svD m -> LLoc l (sl m) -> ld_closed m = false ->
   DirRel (SvN (l_wbuf l)) rvD pout (c_ld m) (ml_wbuf (sl m)) ->
   DirRel svD (RvN (l_rd l)) pin (c_dl m) (md_wbuf (sd m)) ->
   l_poll fuel l pin pout = (l', pin', pout', r) ->
   exists k, LPost rvD svD (mlk k m) l' pin' pout' r.
 
 Lemma lpost_fail : forall rvD svD rv m1 l' pin' pout' code,
-  Reach ds ls (l_fail m1) -> SLinkD svD m1 -> 0 < code < 90 ->
+  R (l_fail m1) -> SLinkD svD m1 -> 0 < code < 90 ->
   DirRel (SvN []) rvD pout' (c_ld m1) (ml_wbuf (sl m1)) ->
   DirRel svD rv pin' (c_dl m1) (md_wbuf (sd m1)) ->
   LPost rvD svD (l_fail m1) l' pin' pout' (NErr code).
@@ -188,19 +207,18 @@ Proof.
 Qed.
 
 (* a reading listener is never faced with a successfully finished dialer *)
-Lemma read_guard : forall m svD, Reach ds ls m -> SLinkD svD m ->
+Lemma read_guard : forall m svD, R m -> SLinkD svD m ->
   (ml_ph (sl m) = MLRecvHeader \/ ml_ph (sl m) = MLRecvMsg) ->
   forall pw fin, svD = SvP pw fin -> c_dl m <> [].
 Proof.
   intros m svD HR HL Hph pw fin ->. cbn in HL. destruct HL as [q Hq].
-  destruct (done_dialer_no_read ds ls m q wfd_ds HR Hq) as [N1 N2].
-  exfalso. destruct Hph; contradiction.
+  exact (R_guard_l m q HR Hq Hph).
 Qed.
 
 Lemma simL_recv_header : forall f, SimStmtL f ->
   forall protos na rd wb pin pout m rvD svD l' pin' pout' r,
   let l := mkListener LRecvHeader protos na rd wb in
-  Reach ds ls m -> SLinkD svD m -> LLoc l (sl m) -> ld_closed m = false ->
+  R m -> SLinkD svD m -> LLoc l (sl m) -> ld_closed m = false ->
   DirRel (SvN wb) rvD pout (c_ld m) (ml_wbuf (sl m)) ->
   DirRel svD (RvN rd) pin (c_dl m) (md_wbuf (sd m)) ->
   l_poll (S f) l pin pout = (l', pin', pout', r) ->
@@ -210,7 +228,7 @@ Proof.
   subst l. destruct HD as [Hpr HD]. cbn in Hpr, HD. destruct HD as (Hph & ->).
   cbn [l_poll l_ph l_wbuf l_protos l_na l_rd] in H.
   destruct (msg_poll rd pin) as [[st1 pi1] mr] eqn:Em.
-  pose proof (dir_recv _ _ _ _ _ _ _ _ (ok_dl ds ls Hwf m HR)
+  pose proof (dir_recv _ _ _ _ _ _ _ _ (R_ok_dl m HR)
                 (read_guard m svD HR HL (or_introl Hph)) Hin Em) as Hrecv.
   destruct mr as [| |x|code].
   - injection H as <- <- <- <-. exists 0%nat. rewrite mlk_0.
@@ -233,7 +251,7 @@ Proof.
            apply (lpost_fail rvD svD (RvN rd_init)); auto;
            [rewrite <- Hm1; apply Reach_step_l; exact HR | unfold C_INVMSG; lia]).
     set (m1 := set_l (pop_dl m c') (mkL MLSendHeader (ml_wbuf (sl m)))) in *.
-    assert (HR1 : Reach ds ls m1) by (rewrite <- Hm1; apply Reach_step_l; exact HR).
+    assert (HR1 : R m1) by (rewrite <- Hm1; apply Reach_step_l; exact HR).
     assert (HL1 : SLinkD svD m1) by (destruct svD; cbn in *; exact HL).
     assert (HD1 : LLoc (mkListener LSendHeader protos na rd_init []) (sl m1)).
     { split; [exact Hpr|]. cbn. repeat split; reflexivity. }
@@ -245,7 +263,7 @@ Qed.
 Lemma simL_send_header : forall f, SimStmtL f ->
   forall protos na rd wb pin pout m rvD svD l' pin' pout' r,
   let l := mkListener LSendHeader protos na rd wb in
-  Reach ds ls m -> SLinkD svD m -> LLoc l (sl m) -> ld_closed m = false ->
+  R m -> SLinkD svD m -> LLoc l (sl m) -> ld_closed m = false ->
   DirRel (SvN wb) rvD pout (c_ld m) (ml_wbuf (sl m)) ->
   DirRel svD (RvN rd) pin (c_dl m) (md_wbuf (sd m)) ->
   l_poll (S f) l pin pout = (l', pin', pout', r) ->
@@ -260,7 +278,7 @@ Proof.
   cbn [app] in H. change (frame MSG_HEADER) with (fr MHeader) in H.
   pose proof (ms_l_send_hdr ls m Hph) as Hm1.
   set (m1 := set_l m (mkL (MLFlush None) (ml_wbuf (sl m) ++ [MHeader]))) in *.
-  assert (HR1 : Reach ds ls m1) by (rewrite <- Hm1; apply Reach_step_l; exact HR).
+  assert (HR1 : R m1) by (rewrite <- Hm1; apply Reach_step_l; exact HR).
   assert (HL1 : SLinkD svD m1) by (destruct svD; cbn in *; exact HL).
   assert (HD1 : LLoc (mkListener (LFlush None) protos na rd_init (fr MHeader)) (sl m1)).
   { split; [exact Hpr|]. cbn. exists None. repeat split; reflexivity. }
@@ -273,7 +291,7 @@ Qed.
 Lemma simL_recv_msg : forall f, SimStmtL f ->
   forall protos na rd wb pin pout m rvD svD l' pin' pout' r,
   let l := mkListener LRecvMsg protos na rd wb in
-  Reach ds ls m -> SLinkD svD m -> LLoc l (sl m) -> ld_closed m = false ->
+  R m -> SLinkD svD m -> LLoc l (sl m) -> ld_closed m = false ->
   DirRel (SvN wb) rvD pout (c_ld m) (ml_wbuf (sl m)) ->
   DirRel svD (RvN rd) pin (c_dl m) (md_wbuf (sd m)) ->
   l_poll (S f) l pin pout = (l', pin', pout', r) ->
@@ -284,7 +302,7 @@ Proof.
   assert (Hpr : l_filter (tag_from 0 ls) = l_filter (tag_from 0 ls)) by reflexivity.
   cbn [l_poll l_ph l_wbuf l_protos l_na l_rd] in H.
   destruct (msg_poll rd pin) as [[st1 pi1] mr] eqn:Em.
-  pose proof (dir_recv _ _ _ _ _ _ _ _ (ok_dl ds ls Hwf m HR)
+  pose proof (dir_recv _ _ _ _ _ _ _ _ (R_ok_dl m HR)
                 (read_guard m svD HR HL (or_intror Hph)) Hin Em) as Hrecv.
   destruct mr as [| |x|code].
   - injection H as <- <- <- <-. exists 0%nat. rewrite mlk_0.
@@ -302,7 +320,7 @@ Proof.
     pose proof (ms_l_msg_msg ls m x c' Hph Hc) as Hm1.
     assert (HLp : SLinkD svD (pop_dl m c')) by (destruct svD; cbn in *; exact HL).
     assert (Hdm : dmsg ds x).
-    { destruct (NM_reach ds ls m HR) as (H1 & _). rewrite Hc in H1. inversion H1; assumption. }
+    { pose proof (R_head_dl m HR) as H1. rewrite Hc in H1. inversion H1; assumption. }
     destruct x as [|q| |qs|].
     + (* a second header: violation *)
       injection H as <- <- <- <-.
@@ -314,14 +332,14 @@ Proof.
       rewrite l_find_tagged in H. rewrite (l_find_sup ls 0 q) in Hm1.
       destruct (lidx 0 ls q) as [j|] eqn:Ej.
       * set (m1 := set_l (pop_dl m c') (mkL (MLSendMsg (MProto q) (Some q)) (ml_wbuf (sl m)))) in *.
-        assert (HR1 : Reach ds ls m1) by (rewrite <- Hm1; apply Reach_step_l; exact HR).
+        assert (HR1 : R m1) by (rewrite <- Hm1; apply Reach_step_l; exact HR).
         assert (HL1 : SLinkD svD m1) by (destruct svD; cbn in *; exact HL).
         assert (HD1 : LLoc (mkListener (LSendMsg (MProto q) (Some j)) (l_filter (tag_from 0 ls)) na rd_init []) (sl m1)).
         { split; [exact Hpr|]. cbn. exists (Some q). repeat split; auto. }
         destruct (IH _ _ _ m1 rvD svD _ _ _ _ HR1 HL1 HD1 Hcl Hout Hin' H) as (k & HP).
         exists (S k). rewrite mlk_S, Hm1. exact HP.
       * set (m1 := set_l (pop_dl m c') (mkL (MLSendMsg MNa None) (ml_wbuf (sl m)))) in *.
-        assert (HR1 : Reach ds ls m1) by (rewrite <- Hm1; apply Reach_step_l; exact HR).
+        assert (HR1 : R m1) by (rewrite <- Hm1; apply Reach_step_l; exact HR).
         assert (HL1 : SLinkD svD m1) by (destruct svD; cbn in *; exact HL).
         assert (HD1 : LLoc (mkListener (LSendMsg MNa None) (l_filter (tag_from 0 ls)) na rd_init []) (sl m1)).
         { split; [exact Hpr|]. cbn. exists None. repeat split; auto. }
@@ -344,7 +362,7 @@ Qed.
 Lemma simL_send_msg : forall f, SimStmtL f ->
   forall x o protos na rd wb pin pout m rvD svD l' pin' pout' r,
   let l := mkListener (LSendMsg x o) protos na rd wb in
-  Reach ds ls m -> SLinkD svD m -> LLoc l (sl m) -> ld_closed m = false ->
+  R m -> SLinkD svD m -> LLoc l (sl m) -> ld_closed m = false ->
   DirRel (SvN wb) rvD pout (c_ld m) (ml_wbuf (sl m)) ->
   DirRel svD (RvN rd) pin (c_dl m) (md_wbuf (sd m)) ->
   l_poll (S f) l pin pout = (l', pin', pout', r) ->
@@ -356,14 +374,14 @@ Proof.
   rewrite wr_ready_small in H by (rewrite max_frame_val; unfold len; cbn; lia).
   cbn [negb] in H.
   assert (Hokx : okmsg x).
-  { destruct (NM_reach ds ls m HR) as (_ & _ & _ & _ & _ & _ & H7). rewrite Hph in H7.
+  { pose proof (R_send_l m HR) as H7. rewrite Hph in H7.
     exact (lmsg_ok ds Hwf x H7). }
   destruct Hokx as [_ Hlen].
   rewrite wr_send_ok in H by exact Hlen.
   cbn [app] in H. change (frame (encode_msg x)) with (fr x) in H.
   pose proof (ms_l_send_msg ls m x o' Hph) as Hm1.
   set (m1 := set_l m (mkL (MLFlush o') (ml_wbuf (sl m) ++ [x]))) in *.
-  assert (HR1 : Reach ds ls m1) by (rewrite <- Hm1; apply Reach_step_l; exact HR).
+  assert (HR1 : R m1) by (rewrite <- Hm1; apply Reach_step_l; exact HR).
   assert (HL1 : SLinkD svD m1) by (destruct svD; cbn in *; exact HL).
   set (na' := match x with MNa => true | _ => false end) in *.
   assert (HD1 : LLoc (mkListener (LFlush o) protos na' rd_init (fr x)) (sl m1)).
@@ -377,7 +395,7 @@ Qed.
 Lemma simL_flush : forall f, SimStmtL f ->
   forall o protos na rd wb pin pout m rvD svD l' pin' pout' r,
   let l := mkListener (LFlush o) protos na rd wb in
-  Reach ds ls m -> SLinkD svD m -> LLoc l (sl m) -> ld_closed m = false ->
+  R m -> SLinkD svD m -> LLoc l (sl m) -> ld_closed m = false ->
   DirRel (SvN wb) rvD pout (c_ld m) (ml_wbuf (sl m)) ->
   DirRel svD (RvN rd) pin (c_dl m) (md_wbuf (sd m)) ->
   l_poll (S f) l pin pout = (l', pin', pout', r) ->
@@ -391,7 +409,7 @@ Proof.
   pose proof (l_moves ls k m o' Hph Hk) as Hmk.
   set (mk := mkS (sd m) (mkL (MLFlush o') (skipn k (ml_wbuf (sl m)))) (c_dl m) (dl_closed m)
                  (c_ld m ++ firstn k (ml_wbuf (sl m))) (ld_closed m)) in *.
-  assert (HRk : Reach ds ls mk) by (rewrite <- Hmk; apply Reach_run; exact HR).
+  assert (HRk : R mk) by (rewrite <- Hmk; apply (R_mlk k); exact HR).
   assert (HLk : SLinkD svD mk) by (destruct svD; cbn in *; exact HL).
   destruct ok.
   - destruct (Hok eq_refl) as [-> Hkw].
@@ -410,7 +428,7 @@ Proof.
       exists n. cbn. repeat split; auto.
     + (* rejected: wait for the next proposal *)
       set (m1 := set_l mk (mkL MLRecvMsg [])) in *.
-      assert (HR1 : Reach ds ls m1) by (rewrite <- Hm1; apply Reach_step_l; exact HRk).
+      assert (HR1 : R m1) by (rewrite <- Hm1; apply Reach_step_l; exact HRk).
       assert (HL1 : SLinkD svD m1) by (destruct svD; cbn in *; exact HL).
       assert (HD1 : LLoc (mkListener LRecvMsg protos na rd_init []) (sl m1)).
       { split; [exact Hpr|]. cbn. split; reflexivity. }
@@ -437,3 +455,15 @@ Proof.
 Qed.
 
 End SimL.
+
+(* ---- the instance used by the two-ended system: the peer is the model's own dialer *)
+Lemma l_poll_sim_reach : forall ds ls, Forall wfn ds -> forall fuel, SimStmtL ls (Reach ds ls) fuel.
+Proof.
+  intros ds ls Hwf. apply (l_poll_sim ds ls Hwf).
+  - intros m H. exact (Reach_run ds ls m [false] H).
+  - intros m H. exact (ok_dl ds ls Hwf m H).
+  - intros m H. destruct (NM_reach ds ls m H) as (H1 & _). exact H1.
+  - intros m H. destruct (NM_reach ds ls m H) as (_ & _ & _ & _ & _ & _ & H7). exact H7.
+  - intros m q HR Hq Hph. destruct (done_dialer_no_read ds ls m q (wfd_ds ds Hwf) HR Hq) as [N1 N2].
+    exfalso. destruct Hph; contradiction.
+Qed.
